@@ -261,6 +261,13 @@ class Check:
         }
         if self.known_hits:
             ev["known_findings_hit"] = self.known_hits
+        # every listed known finding is announced on every run; those this run's inputs did not exercise are marked as such
+        listed = [e for e in load_known_findings(self.prop) if e.get("kind") == "known"]
+        for e in listed:
+            if e.get("signature") not in self.known_hits:
+                print("KNOWN-FINDING: property=%s %s [listed; not exercised by the inputs of this run]" % (self.prop, e.get("text", e.get("signature"))), flush=True)
+        if listed:
+            ev["known_findings_listed"] = [e.get("signature") for e in listed]
         with open(os.path.join(OUT, "evidence", self.prop + ".json"), "w") as o:
             json.dump(ev, o, indent=1)
         # one line per distinct replay; prefer concrete ones first
